@@ -1540,7 +1540,7 @@ def lib_opt_map(s, a, t, al, k, hint):
     def build(kb):
         def some():
             pt = s.pat_text(c["inputs"][0], t[1])
-            return ("Some %s" % pt, s.expr(c["body"], K(lambda b, tb: kb("Some %s" % paren(b), ("opt", tb)))))
+            return ("Some %s" % pt, s.expr(closure_body(s, c), K(lambda b, tb: kb("Some %s" % paren(b), ("opt", tb)))))
         arm1 = s.scoped(some)
         return Match(a, [arm1, ("None", kb("None", ("opt", None)))])
     return s.join(k, build, hint, "m")
@@ -1556,8 +1556,16 @@ def lib_or_else(s, a, t, al, k, hint):
         raise Unsupported("Option::or_else with this closure")
     def build(kb):
         v = s.fresh("v")
-        return Match(a, [("Some %s" % v, kb("Some %s" % v, t)), ("None", s.scoped(lambda: s.expr(c["body"], kb)))])
+        return Match(a, [("Some %s" % v, kb("Some %s" % v, t)), ("None", s.scoped(lambda: s.expr(closure_body(s, c), kb)))])
     return s.join(k, build, hint, "m", node=c["body"])
+
+
+def closure_body(s, c):
+    """the body of a closure handed to a combinator is translated in place, in the enclosing function's context: that is only right when
+    the body cannot leave the closure early (`return` / `?` inside it return from the CLOSURE, not from the function)"""
+    if s.returns(c["body"]) != "never":
+        raise Unsupported("return / ? / continue inside a closure body")
+    return c["body"]
 
 
 def lib_bool_then(s, a, t, al, k, hint):
@@ -1567,7 +1575,7 @@ def lib_bool_then(s, a, t, al, k, hint):
         raise Unsupported("bool::then with this closure")
     def build(kb):
         def some():
-            return s.expr(c["body"], K(lambda v, tv: kb("Some %s" % paren(v), ("opt", tv))))
+            return s.expr(closure_body(s, c), K(lambda v, tv: kb("Some %s" % paren(v), ("opt", tv))))
         return If(a, s.scoped(some), kb("None", ("opt", None)))
     return s.join(k, build, hint, "m", node=c["body"])
 
@@ -1643,7 +1651,7 @@ def lib_rb_initialize_unfilled(s, a, t, al, k, hint):
 def lib_map_err(s, a, t, al, k, hint):
     c = al[0]
     if c["k"] == "Closure" and len(c["inputs"]) == 1 and c["inputs"][0]["k"] == "Wild":
-        return s.expr(c["body"], K(lambda e, te: k("match %s with Ok v => Ok v | Err _ => Err %s end" % (a, paren(e)), ("res", t[1], te))))
+        return s.expr(closure_body(s, c), K(lambda e, te: k("match %s with Ok v => Ok v | Err _ => Err %s end" % (a, paren(e)), ("res", t[1], te))))
     raise Unsupported("Result::map_err with this closure")
 
 
